@@ -42,6 +42,7 @@ KINDS = {
     "unclean-quiescence": "at quiescence: no owner, no waiters, no task records a held or awaited lock",
     "loop-error": "no exception escapes to the event loop",
     "holding-mismatch": "_holding_locks / _waiting_on equal the locks the task is inside / waits for",
+    "bad-release": "release() by a task that does not hold the lock is refused and changes nothing",
 }
 THEOREM = {
     "mutual-exclusion": "Asynkit.C13.mutual_exclusion",
@@ -50,9 +51,10 @@ THEOREM = {
     "spurious-exception": "Asynkit.C13.woken_waiter_finds_lock_free",
     "unclean-quiescence": "Asynkit.C13.quiescent_clean",
     "holding-mismatch": "Asynkit.C13.holding_waiting_consistent",
+    "bad-release": "Asynkit.C13.refused_release_changes_nothing",
 }
 NONTRIVIAL = {"fault-while-waiting", "fault-woken-not-run", "fault-while-holding", "throw-refused",
-              "handover-by-giveup", "handover-contended"}
+              "handover-by-giveup", "handover-contended", "release-by-non-holder-while-held"}
 
 
 def exhaustive(maxn):
